@@ -93,8 +93,9 @@ def sp_vectors(full):
         for n2 in range(4 - n1):
             tot = n1 + n2
             if full:
-                for mode, build, typed, fin in itertools.product((0, 1), (0, 1, 2), (0, 1), (0, 1, 2, 3)):
+                for mode, build, fin in itertools.product((0, 1), (0, 1, 2), (0, 1, 2, 3)):
                     for npop in range(tot + 1):
+                        typed = idx % 2; idx += 1
                         vs.append([mode, build, n1, n2, typed, npop, fin])
             else:
                 for fin in range(4):
@@ -104,14 +105,18 @@ def sp_vectors(full):
 
 
 # ------------------------------------------------------------------ generator
-def gen_vectors(styles, full, ns=(0, 1, 2, 3)):
+def gen_vectors(styles, full, ns=(0, 1, 2, 3), cyc_galloc=False):
     vs = []
     idx = 0
     for style in styles:
         for n in ns:
             ks = sorted(set([0, n, n + 1, min(n + 2, 5)])) if full else [n + 1]
             for k in ks:
-                if full:
+                if full and cyc_galloc:
+                    for mode, end in itertools.product((0, 1), (0, 1)):
+                        galloc = idx % 2; idx += 1
+                        vs.append([mode, galloc, n, end, style, k])
+                elif full:
                     for mode, galloc, end in itertools.product((0, 1), (0, 1), (0, 1)):
                         vs.append([mode, galloc, n, end, style, k])
                 else:
@@ -171,7 +176,7 @@ def plan(tier):
                       concrete=pick(sv, ()), cbmc_extra=FS, timeout=600,
                       space='suspend point programs [mode, build, n1, n2, typed, npop, fin]: two suspend points with n1+n2<=3 handles are built (from a handle + <<, default + <<, create_suspend_point), merged, '
                             'popped npop times, moved (suspend_point<void> or through suspend_point<bool>), then destroyed / cleared / awaited from a coroutine (heap or placement frame); ' +
-                            ('all (n1,n2) x fin, mode/build/typed/npop cycling' if quick else 'full product'),
+                            ('all (n1,n2) x fin, mode/build/typed/npop cycling' if quick else 'full product of mode x build x (n1,n2) x npop x fin, typed alternating'),
                       data='none', bounds='<= 3 handles in total (inline capacity)', outside='4 or more handles (documented heap spill)'))
     # ---- generator
     gi = gen_vectors((0, 1, 2, 3, 4, 5), not quick)
@@ -181,11 +186,11 @@ def plan(tier):
                             'next()/value(), the future interface, the iterator, or from a consumer coroutine (co_await next() / co_await gen(), heap or placement frame), then destroyed; ' +
                             ('style x n x end with k = n+1 steps (one past the end), mode/galloc cycling' if quick else 'style x n x k in {0, n, n+1, n+2} x mode x galloc x end'),
                       data='first yielded value: symbolic', bounds='<= 3 yields, <= 5 steps', outside='generators that co_await (asynchronous generators); generator_aggregator'))
-    gs = gen_vectors((0, 1, 2, 3), not quick, ns=(1, 3) if quick else (0, 1, 2, 3))
+    gs = gen_vectors((0, 1, 2, 3), not quick, ns=(1, 3) if quick else (0, 1, 2, 3), cyc_galloc=True)
     ga = gen_vectors((0,), not quick, ns=(0, 1, 2, 3))
     units.append(dict(engine='e1', name='h_gen_small', tu='C20.cpp', defines=('C20_PART=7',), entry='h_gen_small', unwind=8, vectors=gs,
                       concrete=pick(gs, (5, 7)), cbmc_extra=FS, timeout=600,
-                      space='generator<small struct>: same programs as h_gen_int, styles 0-3' + (', n in {1,3}' if quick else ''),
+                      space='generator<small struct>: same programs as h_gen_int, styles 0-3' + (', n in {1,3}' if quick else ', generator frame policy alternating'),
                       data='first yielded value: symbolic', bounds='<= 3 yields, <= 5 steps', outside='see h_gen_int'))
     units.append(dict(engine='e1', name='h_gen_arg', tu='C20.cpp', defines=('C20_PART=7',), entry='h_gen_arg', unwind=8, vectors=ga,
                       concrete=pick(ga, (5, 7)), cbmc_extra=FS, timeout=600,
